@@ -609,6 +609,11 @@ func oneCase(r *mon.Rec, i int, isTyped func(int) bool, typedList []int) {
 		for _, b := range wrapNames(w) {
 			run(r, b.entry, 0, b.b, "label-web")
 		}
+		w = reflabel.Boundary(rng)
+		run(r, "rfc1035label.FromBytes", 0, w, "label-boundary")
+		for _, b := range wrapNames(w) {
+			run(r, b.entry, 0, b.b, "label-boundary")
+		}
 	case k < 18: // v4 value types
 		names := make([]string, 0, len(v4types))
 		for n := range v4types {
